@@ -72,6 +72,22 @@ def check_word(tkey, el, word, path='api'):
         return F('output-not-well-formed', str(ex))
     if tags != list(word):
         return F('serialised-order-differs', tags)
+    # the same word reached by exchanging one child for an equal one (replace_child / xml_x = instance) is the same
+    # word: the exchanged child keeps its place.  Tried where it can matter: a child with a same-named later sibling.
+    for i, a in enumerate(word):
+        if a in word[i + 1:]:
+            new = stub(a)
+            r = call(e.replace_child, kids[i], new)
+            if not r.ok:
+                return F('replacement-by-equal-child-rejected', '%s at index %d (%s)' % (r.etype, i, a), r.site)
+            kids[i] = new
+            oc = call(e.get_children, True).value or []
+            r = call(e.to_string)
+            if len(oc) != len(kids) or any(x is not y for x, y in zip(oc, kids)) or not r.ok or \
+                    driver.child_tags(r.value) != list(word):
+                return F('replacement-by-equal-child-moves-it', {'index': i, 'ordered': [
+                    'new' if c is new else c.name for c in oc], 'string': r.verdict()[0]})
+            break
     return None
 
 
